@@ -53,5 +53,5 @@ macro_rules! table_harness {
     )* };
 }
 table_harness!(c02_table_1 = 1, c02_table_2 = 2, c02_table_3 = 3, c02_table_4 = 4, c02_table_5 = 5, c02_table_6 = 6, c02_table_7 = 7,
-    c02_table_8 = 8, c02_table_9 = 9, c02_table_10 = 10, c02_table_11 = 11, c02_table_12 = 12, c02_table_13 = 13, c02_table_14 = 14,
-    c02_table_15 = 15, c02_table_16 = 16, c02_table_17 = 17, c02_table_18 = 18, c02_table_19 = 19);
+    c02_table_8 = 8, c02_table_9 = 9, c02_table_11 = 11, c02_table_12 = 12, c02_table_13 = 13, c02_table_15 = 15, c02_table_16 = 16,
+    c02_table_18 = 18);
